@@ -60,16 +60,14 @@ CLAIMED = {
             "the original under the affine domain map, piece counts and order, input untouched; split parameters near knots probe the multiplicity tolerance.",
             "Not proved: unclamped knot vectors, degree 0, inner multiplicity > p, decompose_surface with an un-normalised other-direction knot vector, volumes (oracle + correspondence only)."),
     'C02': ("7/C02",
-            "Lean theorems: curve_derivatives_are_true_derivatives - entry k of the model of Curve.derivatives(u, order) (A3.3 + A3.4) equals the k-th iterated Polynomial.derivative of the span polynomial evaluated at u, "
-            "for EVERY k <= order (zero above the degree), every degree, sorted knot vector, non-empty span, parameter, dimension (the derivative from the right at knots); the span polynomial evaluates to the curve point (ties to C01); "
-            "surface_derivatives_are_true_mixed_derivatives - entry [k][l] of the surface model equals the mixed partial derivative (pderivU^[k] pderivV^[l]) of the bivariate span polynomial in F[X][Y] evaluated at (u,v), for all k, l <= order "
-            "(triangular variant: k + l <= order, the rest zero), partial derivatives commute; A2.3 (helpers.basis_function_ders) TRANSCRIBED LITERALLY (basisFunsDersA23: ndu table, alternating a rows, j1/j2 bounds, final factor loop) is proved equal to the "
-            "specification table, whose entries are the true derivatives of the basis polynomials; every divisor of A2.3 is a positive knot difference under the span guard; A3.2 over that table is the true derivative; "
-            "the A4.2 and A4.4 list models solve the univariate / bivariate Leibniz systems of every order, whose solution is unique when the weight function does not vanish (i.e. they are the derivatives of the quotient A/w); "
-            "cross-product orthogonality of the normal and exact unit length of v/mag. The model is tied to Curve.derivatives / Surface.derivatives for both evaluator families (A3.2/A3.6 via A2.3 and A3.4/A3.8), rational and not, orders 0..degree+2, and to "
-            "helpers.basis_function_ders itself by exact correspondence; an independent exact jet-arithmetic oracle checks every returned vector, the hodograph constructors, tangent and normal.",
-            "By correspondence + oracle only: the loop structure of SurfaceEvaluator.derivatives / SurfaceEvaluator2 (A3.6-A3.8 tables; the model is the tensor formula over two basis tables), the hodograph constructors, operations.tangent / normal "
-            "(orthogonality is proved on the model's cross product of surface derivative entries). The quotient view of rational derivatives goes through the Leibniz system and its uniqueness. Unit length of normalised vectors in floating point: oracle, 1e-12. "
+            "Lean theorems for EVERY shipped derivative routine AS CODED - A2.3 (basis_function_ders), A3.2 (CurveEvaluator.derivatives), A3.3/A3.4, A3.6 (SurfaceEvaluator.derivatives), A3.7 (surface_deriv_cpts), A3.8 (SurfaceEvaluator2.derivatives) transcribed loop by loop, "
+            "each compared with the real function by its own exact stream: curve entry k = k-th iterated Polynomial.derivative of the span polynomial at u (every k <= order, zero above the degree; the derivative from the right at knots); surface entry [k][l] = mixed partial "
+            "(pderivU^[k] pderivV^[l]) of the bivariate span polynomial in F[X][Y] at (u,v) (A3.6: all k, l <= order; A3.8: k + l <= order, the rest zero; every PKL entry A3.8 reads is assigned by A3.7); A2.3 = table of true derivatives of the basis polynomials, all divisors positive; "
+            "the A4.2 and A4.4 list models solve the univariate / bivariate Leibniz systems of every order, whose solution is unique when the weight function does not vanish (= derivatives of the quotient A/w), also applied to the tables as coded; "
+            "hodograph constructors: derivative_curve evaluated through the span search on U[1:-1] = first derivative of the original curve (span shifts by one), the three surfaces of derivative_surface evaluate to S_u, S_v, S_uv; operations.tangent = (point, first derivative(s)); "
+            "operations.normal = cross product of the true partials, orthogonal to both; exact unit length of v/mag. Anchored-line coverage of C02: 302/302.",
+            "Outside the theorems: the setter re-normalisation of hodograph knot vectors that do not span [0,1] (driver applies knotNormalize where the code does; oracle maps the parameter affinely), the ZeroDivisionError guards of the constructors (F-02b, open), "
+            "float sqrt and 18-decimal rounding of vector_normalize (oracle, 1e-12). The quotient view of rational derivatives goes through the Leibniz system and its uniqueness; no end-to-end rational theorem through the span search for curves yet (row lengths of curveDersAt not discharged). "
             "F-02 (alternative surface evaluator, order > degree_u) was reported with a replay and fixed; F-02b (derivative_surface on C0 knots) is a recorded finding."),
     'C08': ("7/C08",
             "Lean theorems over the executable model, for every degree, elevation count, dimension, parameter and field of characteristic 0: binomial_coefficient = Nat.choose; "
@@ -125,10 +123,13 @@ CLAIMED = {
             "transpose leaves sample sizes unswapped (recorded observation, not checked)."),
     'C17': ("7/C17",
             "Lean theorems: binary span search = linear span search (termination included) for every degree / knots / parameter under the tolerance hypothesis that F-17b violates; span search, A2.2 and curve / surface / volume POINT evaluation are "
-            "invariant under increasing affine maps of knots and parameter (per direction), in particular under knotvector.normalize with the normalised parameter; an LRU cache of ANY capacity is transparent for EVERY call history (the contract behind GEOMDL_CACHE_SIZE); "
-            "both evaluator families are tied to one model function (C02). Correspondence: objects built with find_span_binsearch and with normalize_kv=True on affine knot ranges against the same model lines; the harness "
+            "invariant under increasing affine maps of knots and parameter (per direction), in particular under knotvector.normalize with the normalised parameter; curve and surface DERIVATIVES scale by the chain-rule factors (entry k by a^-k, entry [k][l] by a1^-k*a2^-l; basis derivative tables, A2.3 as coded, rational A4.2 / A4.4 structurally on their loops; "
+            "with knotvector.normalize the order-k derivative is multiplied by (last-first)^k); knot insertion, removal and refinement return the SAME control points and the mapped knot vectors under an increasing affine map of the knots (helper level and one direction of "
+            "insert_knot / remove_knot / refine_knotvector on curves, surfaces, volumes; tolerance of find_multiplicity scaled with the range, or unchanged under an explicit separation hypothesis), split_curve / split_surface_u/v return identical pieces; "
+            "find_span_binsearch returns a legal span index on the whole domain for any tolerance >= 0 (termination needs neither sortedness nor the F-17b hypothesis); an LRU cache of ANY capacity is transparent for EVERY call history (the contract behind GEOMDL_CACHE_SIZE); "
+            "both curve evaluator families return the same vectors (A3.2 over A2.3 as coded = A3.3/A3.4, every k <= requested order) and the two surface evaluator variants agree where both compute an entry (C02: both as coded). Correspondence: objects built with find_span_binsearch and with normalize_kv=True on affine knot ranges against the same model lines; the harness "
             "imports the package in sub-interpreters under GEOMDL_CACHE_SIZE in {unset,1,16,1024} and runs tessellation / voxelisation with num_procs in {1,2,4,8}, comparing results.",
-            "Derivative scaling under the knot range and commuting with insertion / refinement / split are correspondence + oracle only. Runtime parts (process pools, functools.lru_cache itself, environment) cannot be exhibited by a theorem: they are compared by the harness in floating point only. F-17a (import fails when GEOMDL_CACHE_SIZE is set) was "
+            "Not theorems: the multi-direction folds of insert_knot / remove_knot / refine_knotvector and decompose_* under a change of the knot range (proved per direction / per split), refinement with the code's fixed tolerance (theorems scale it with the range), volume derivatives (library stub). Runtime parts (process pools, functools.lru_cache itself, environment) cannot be exhibited by a theorem: they are compared by the harness in floating point only. F-17a (import fails when GEOMDL_CACHE_SIZE is set) was "
             "reported with a replay and fixed; F-17b and F-01 are recorded findings reported by C03 / C01."),
     'C19': ("7/C19",
             "Lean theorems (15, all discharged): the repaired == is reflexive, symmetric for equal tolerance, a deep copy equals its source; eqShape_iff: on well-formed shapes equality holds exactly when kind, rationality, "
